@@ -582,4 +582,90 @@ theorem exec_err (n : Nat) (ih : AllSpec n) (ihe : ErrSpec n) (b : Base) (s s' :
         exact ((ihe.resolved s1 s' f args hk.wf hio.2 hex).pre hk.ext hk.same.susp hk.same.linear).faultOK hr
     | _ => exact absurd rfl hs
 
+/-! ## The Go builtins -/
+
+theorem builtin_err (n : Nat) (ih : AllSpec n) (ihe : ErrSpec n) (name : String) (args : List Val) (s s' : St)
+    (hw : WF s) (hpc : s.pc = -1) (ha : ∀ a ∈ args, vok s.fns.length a = true)
+    (hex : (builtin (n + 1) name args).run s = (.error .err, s')) : ErrOut s s' := by
+  unfold VM.builtin at hex
+  split at hex
+  · simp only [run_bind, run_modify, run_pure] at hex; cases hex
+  split at hex
+  · simp only [run_bind, run_modify, run_pure] at hex; cases hex
+  split at hex
+  · -- force
+    split at hex
+    · exact ihe.force _ s s' hw hex
+    · simp only [run_pure] at hex; cases hex
+    · cases hex; exact ErrOut.refl hw
+  split at hex
+  · -- substitute
+    split at hex
+    · rename_i id
+      rw [run_bind, run_get] at hex
+      dsimp only at hex
+      split at hex
+      · cases hex; exact ErrOut.refl hw
+      · rename_i lz hlz
+        split at hex
+        · simp only [run_pure] at hex; cases hex
+        · rcases hq : quoteE lz.e s.heap with ⟨w, h'⟩
+          simp only [hq, run_bind, run_set, run_pure] at hex
+          cases hex
+    · simp only [run_pure] at hex; cases hex
+    · cases hex; exact ErrOut.refl hw
+  split at hex
+  · -- apply
+    split at hex
+    · rename_i f coll
+      split at hex
+      · cases hex; exact ErrOut.refl hw
+      · rw [run_bind, run_get] at hex
+        dsimp only at hex
+        have hf := ha f (by simp)
+        have hc := ha coll (by simp)
+        split at hex
+        · rename_i r
+          exact ihe.apply f _ s s' hw hpc hf (heap_get_vok hw r) hex
+        · rename_i a b
+          split at hex
+          · rename_i xs hxs
+            exact ihe.apply f xs s s' hw hpc hf (listToArray_vok _ xs hxs hc) hex
+          · cases hex; exact ErrOut.refl hw
+        · cases hex; exact ErrOut.refl hw
+    · cases hex; exact ErrOut.refl hw
+  split at hex
+  · -- map
+    split at hex
+    · rename_i f coll
+      split at hex
+      · cases hex; exact ErrOut.refl hw
+      · have hf := ha f (by simp)
+        have hc := ha coll (by simp)
+        split at hex
+        · rename_i r
+          rw [run_bind, run_get] at hex
+          dsimp only at hex
+          rw [run_bind] at hex
+          rcases hm : (mapArr n f r 0 (s.heap.get r).length).run s with ⟨rr, s1⟩
+          rw [hm] at hex
+          cases rr with
+          | error e => cases hex; exact ihe.mapArr f r 0 _ s s' hw hpc hf hm
+          | ok vs =>
+            dsimp only at hex
+            rw [run_bind, run_get] at hex
+            dsimp only at hex
+            simp only [run_bind, run_set, run_pure] at hex
+            cases hex
+        · rename_i a b
+          exact ihe.mapList f _ s s' hw hpc hf hc hex
+        · cases hex; exact ErrOut.refl hw
+    · cases hex; exact ErrOut.refl hw
+  · -- the pure builtins
+    rw [run_bind, run_get] at hex
+    dsimp only at hex
+    split at hex
+    · simp only [run_bind, run_set, run_pure] at hex; cases hex
+    · cases hex; exact ErrOut.refl hw
+
 end ZygoVerif.RunInv
